@@ -372,6 +372,91 @@ func pairValues(data []byte) [][]byte {
 	return vs
 }
 
+// substituteKinds: pair i of a proof / export replaced by a well-formed node of every OTHER kind (hash node, value
+// node, branch, short node, nil node) whose claimed Hash field — and weight — are those of the node it replaces, i.e. the
+// hash the parent expects, everything else intact. Truncations, byte changes and kind-key changes never produce these:
+// they pass the "child hash mismatch" test of the importer and reach whatever it does with the accepted child next
+// (e.g. a type assertion on the kind the parent's entry announced).
+func substituteKinds(r *rand.Rand, vals [][]byte, i int) [][]byte {
+	var h []byte
+	var w uint64
+	kind := ""
+	func() {
+		defer func() { _ = recover() }()
+		n, err := wmpt.DeserializeNode(append([]byte(nil), vals[i]...))
+		if err != nil || n == nil {
+			return
+		}
+		h, w = append([]byte(nil), n.Hash()...), n.Weight()
+		if d := descNodeBytes(vals[i]); len(d) > 0 {
+			kind = d[:1]
+		}
+	}()
+	if kind == "" {
+		return nil
+	}
+	if len(h) == 0 {
+		h = randBytes(r, 32)
+	}
+	entry := func(w uint64) []byte { return append(randBytes(r, 32), be64(w)...) }
+	nibbles := func(n int) []byte {
+		k := make([]byte, n)
+		for j := range k {
+			k[j] = byte(r.Intn(16))
+		}
+		return k
+	}
+	var subs [][]byte
+	if kind != "H" {
+		subs = append(subs, marshalBase(&wmpt.PersistNodeBase{HashNode: &wmpt.PersistHashNode{Hash: h, Weight: w}}))
+	}
+	if kind != "V" {
+		subs = append(subs, marshalBase(&wmpt.PersistNodeBase{Value: &wmpt.PersistNodeValue{Value: randBytes(r, 1+r.Intn(4)), Hash: h, Weight: w}}))
+	}
+	if kind != "B" {
+		ch := make([][]byte, 16)
+		a := r.Intn(16)
+		b := (a + 1 + r.Intn(15)) % 16
+		w1 := uint64(0)
+		if w > 1 {
+			w1 = 1 + uint64(r.Int63())%(w-1)
+		}
+		ch[a] = entry(w - w1)
+		switch r.Intn(3) {
+		case 0: // a second plain entry
+			ch[b] = entry(w1)
+		case 1: // an entry that embeds a short child (hash, weight, value hash, key)
+			ch[b] = append(append(entry(w1), randBytes(r, 32)...), nibbles(1+r.Intn(5))...)
+		}
+		subs = append(subs, marshalBase(&wmpt.PersistNodeBase{Branch: &wmpt.PersistNodeBranch{Hash: h, Children: ch}}))
+	}
+	if kind != "S" {
+		subs = append(subs, marshalBase(&wmpt.PersistNodeBase{Short: &wmpt.PersistNodeShort{Key: nibbles(1 + r.Intn(6)), Hash: h, Value: entry(w)}}))
+	}
+	if kind != "N" {
+		subs = append(subs, marshalBase(&wmpt.PersistNodeBase{NilNode: &wmpt.PersistNilNode{}}))
+	}
+	var out [][]byte
+	for _, sb := range subs {
+		v2 := append([][]byte(nil), vals...)
+		v2[i] = sb
+		out = append(out, marshalPairs(v2, -1))
+	}
+	return out
+}
+
+// substitutePositions: every position of a short pair list, a sample of 8 otherwise
+func substitutePositions(r *rand.Rand, n int) []int {
+	if n <= 8 {
+		ps := make([]int, n)
+		for i := range ps {
+			ps[i] = i
+		}
+		return ps
+	}
+	return r.Perm(n)[:8]
+}
+
 func genC15Wmpt(r *rand.Rand, tier string, idx int) []string {
 	nodes, proof, block, export := c15Sources(r)
 	var ops []string
@@ -428,6 +513,15 @@ func genC15Wmpt(r *rand.Rand, tier string, idx int) []string {
 			v2[r.Intn(len(v2))] = nodes[r.Intn(len(nodes))]
 			vproof(block, marshalPairs(v2, -1))
 		}
+		// a node of another kind carrying the hash (and weight) the parent expects, at every position
+		for _, j := range substitutePositions(r, len(vals)) {
+			for _, m := range substituteKinds(r, vals, j) {
+				vproof(block, m)
+				if j%3 == 0 {
+					dtrie(m)
+				}
+			}
+		}
 		vproof(block, nil)
 	default: // path exports
 		dtrie(export)
@@ -461,6 +555,14 @@ func genC15Wmpt(r *rand.Rand, tier string, idx int) []string {
 			}
 			dtrie(marshalPairs(v2, -1))
 		}
+		for _, j := range substitutePositions(r, len(vals)) {
+			for _, m := range substituteKinds(r, vals, j) {
+				dtrie(m)
+				if j%3 == 0 {
+					vproof(block, m)
+				}
+			}
+		}
 		dtrie(nil)
 		// the export taken as a proof and vice versa
 		vproof(block, export)
@@ -472,7 +574,7 @@ func genC15Wmpt(r *rand.Rand, tier string, idx int) []string {
 func init() {
 	register(&Suite{
 		Name:        "c15wmpt",
-		Rule:        "malformed-input stream for wmpt.DeserializeNode / Deserialize / VerifyBlockProof: real node, proof and export encodings of generated tries and their corruptions (every truncation, CBOR head inflation/deflation, indefinite and huge lengths, type-key changes, byte changes/insertions/deletions), valid CBOR with arbitrary fields (child entries of every length 0..81, 0..100 children, short value fields of every length, overflowing weights, several kinds in one map), null pairs at every position, elements of other kinds spliced into proofs and exports; non-trivial = every case",
+		Rule:        "malformed-input stream for wmpt.DeserializeNode / Deserialize / VerifyBlockProof: real node, proof and export encodings of generated tries and their corruptions (every truncation, CBOR head inflation/deflation, indefinite and huge lengths, type-key changes, byte changes/insertions/deletions), valid CBOR with arbitrary fields (child entries of every length 0..81, 0..100 children, short value fields of every length, overflowing weights, several kinds in one map), null pairs at every position, elements of other kinds spliced into proofs and exports, every pair replaced by a well-formed node of each other kind that carries the hash and weight its parent expects; non-trivial = every case",
 		Gen:         genC15Wmpt,
 		Run:         runC15Wmpt,
 		CaseTimeout: 3 * time.Minute,
